@@ -363,6 +363,9 @@ fn run_worker(prop: &str, tier: Tier, shard: u64, n: u64, extra: &[String]) -> (
     for e in extra {
         cmd.arg(e);
     }
+    // glibc: do not give the heap top back to the kernel between cases (a 64 KiB iterator buffer per case
+    // otherwise costs a brk shrink/grow and fresh page faults every time)
+    cmd.env("MALLOC_TRIM_THRESHOLD_", "1073741824").env("MALLOC_TOP_PAD_", "33554432");
     cmd.stdout(Stdio::piped()).stderr(Stdio::inherit());
     let mut child = cmd.spawn().expect("machinery: spawn worker");
     let stdout = child.stdout.take().unwrap();
